@@ -182,6 +182,16 @@ class GaussSloppyPrior(SimModel):
         return np.zeros(np.size(x[self.names[0]]), dtype="float64") - self._logvol
 
 
+class GaussX0Only(SimModel):
+    """Likelihood that depends on the first parameter only: the other parameters stay spread over
+    their whole prior range, so data-dependent bounds keep moving (and growing) between trainings."""
+
+    kind = "gauss_x0only"
+
+    def raw_log_likelihood(self, x):
+        return -0.5 * (x[self.names[0]] * x[self.names[0]])
+
+
 class GaussQuantised(SimModel):
     """Likelihood quantised to multiples of 1/8 (exact in binary): ties between
     live points are frequent, so '>' versus '>=' matters, but there is no
@@ -296,6 +306,7 @@ ZOO = {
     "gauss_constrained": GaussConstrained,
     "gauss_quantised": GaussQuantised,
     "gauss_sloppy_prior": GaussSloppyPrior,
+    "gauss_x0only": GaussX0Only,
     "gauss_array1": GaussArray1,
     "gauss_scalar_prior": GaussScalarPrior,
     "gauss_analytic": GaussAnalytic,
